@@ -13,12 +13,19 @@
    key functions k: as in C11_Wire.  Reduce ops: 0 acc+v, 1 2*acc+v, 2 v-acc
    Shuffle: stream = enc_zs of (hi, lo) pairs, the k-th rand.Int() = hi*2^32+lo
    tree: the prefix code of C11_Wire.
+   fn = 100 + f (f = 1..13, 15..21): helper f at float64 — the `nan` stream.  Every element,
+   predicate argument, Reduce init on the wire is the CODE of a float64 (C11_ModelNaN.v: the
+   integer n, [negz_code] for -0, [nan_code] for NaN); Chunk sizes / Drop counts stay ints.
+   predicates [fpred_of] (0..4 as above on floats, 5 x != x, 6 math.Signbit), key functions
+   [fkey_of], Reduce ops [fop_of] (C12_ModelNaN.v); GroupBy is [ggroup_by feq]: its groups are
+   observed as the records key :: group sorted lexicographically (several groups may stand
+   under NaN; the sign of a zero key is observed).
    output: slices enc_zs, matrices enc_zss; panicking calls (Chunk, Drop, Zip, Unzip) / in-place loops as
    0 :: payload | [2] (panic) | [3] (model out of fuel: never); Flatten as
    enc_r1; GroupBy as the key-sorted list of (key, group); iterators return
    the result followed by the callback's call log. *)
 
-From Gogu Require Import Base C11_Model C11_Wire C12_Model.
+From Gogu Require Import Base C11_Model C11_ModelNaN C11_Wire C12_Model C12_ModelNaN.
 
 Definition pred_of (c a : Z) : Z -> bool :=
   match c with
@@ -57,15 +64,31 @@ Definition gsort (l : list (Z * list Z)) : list (Z * list Z) := fold_right ginse
 Definition enc_groups (l : list (Z * list Z)) : list Z :=
   Z.of_nat (length l) :: flat_map (fun kg => fst kg :: enc_zs (snd kg)) l.
 
+(* the `nan` stream: the groups as records key :: group, sorted lexicographically *)
+Fixpoint lex_leb (a b : list Z) : bool :=
+  match a, b with
+  | [], _ => true
+  | _ :: _, [] => false
+  | x :: a', y :: b' => if x <? y then true else if y <? x then false else lex_leb a' b'
+  end.
+Fixpoint linsert (x : list Z) (l : list (list Z)) : list (list Z) :=
+  match l with
+  | [] => [x]
+  | y :: r => if lex_leb x y then x :: l else y :: linsert x r
+  end.
+Definition lsort (l : list (list Z)) : list (list Z) := fold_right linsert [] l.
+Definition enc_groups_lex (l : list (Z * list Z)) : list Z :=
+  Z.of_nat (length l) :: concat (lsort (map (fun kg => fst kg :: enc_zs (snd kg)) l)).
+
 (* an int argument sent as two words (the runner's words are 63-bit): hi*2^32 + lo *)
 Definition wide (hi lo : Z) : Z := hi * 4294967296 + lo.
 
 Definition bind_res {A B} (r : res A) (f : A -> res B) : res B :=
   match r with Ok a => f a | Err k => Err k | Panic => Panic end.
 
-Definition with_pred (a : list Z) (f : (Z -> bool) -> list Z -> list Z) : list Z :=
+Definition with_pred_of (pf : Z -> Z -> Z -> bool) (a : list Z) (f : (Z -> bool) -> list Z -> list Z) : list Z :=
   match a with
-  | c :: pa :: a' => match rd_zs a' with Some (l, []) => f (pred_of c pa) l | _ => wire_error end
+  | c :: pa :: a' => match rd_zs a' with Some (l, []) => f (pf c pa) l | _ => wire_error end
   | _ => wire_error
   end.
 Definition with_zs (a : list Z) (f : list Z -> list Z) : list Z :=
@@ -76,6 +99,11 @@ Definition with_zss (a : list Z) (f : list (list Z) -> list Z) : list Z :=
 (* one dispatcher, instantiated with the model functions ([c12_run]) and with
    the reference definitions of the specification ([c12_spec]) *)
 Section Dispatch.
+  (* the callback families and the encoding of GroupBy's result: ints ([key_of], [pred_of],
+     [op_of], groups sorted by key) or float codes ([fkey_of], [fpred_of], [fop_of], records) *)
+  Context (key_of : Z -> Z -> Z) (pred_of : Z -> Z -> Z -> bool) (op_of : Z -> Z -> Z -> Z)
+          (enc_g : list (Z * list Z) -> list Z).
+  Let with_pred := with_pred_of pred_of.
   Context (f_chunk : list Z -> Z -> res (list (list Z)))
           (f_partition : (Z -> bool) -> list Z -> list Z * list Z)
           (f_filter : (Z -> bool) -> list Z -> list Z)
@@ -104,7 +132,7 @@ Section Dispatch.
         | 5 => with_pred a (fun p l => enc_zs (f_drop_while p l))
         | 6 => with_pred a (fun p l => enc_zs (f_drop_right_while p l))
         | 7 => match a with
-               | k :: a' => with_zs a' (fun l => enc_res (fun g => enc_groups (gsort g)) (f_group_by (key_of k) l))
+               | k :: a' => with_zs a' (fun l => enc_res enc_g (f_group_by (key_of k) l))
                | _ => wire_error end
         | 8 => with_zss a (fun m => enc_res enc_zss (f_zip m))
         | 9 => with_zss a (fun m => enc_res enc_zss (f_unzip m))
@@ -143,11 +171,26 @@ Section Dispatch.
 End Dispatch.
 
 (* the model (the Go loops of C12_Model.v) *)
-Definition c12_run : list Z -> list Z :=
-  dispatch12 chunk partition_go filter_go reject drop_while drop_right_while
+Definition c12_run_int : list Z -> list Z :=
+  dispatch12 key_of pred_of op_of (fun g => enc_groups (gsort g))
+             chunk partition_go filter_go reject drop_while drop_right_while
              (group_by Z.eq_dec) (zip 0) (unzip 0) flatten merge drop reverse reverse_str shuffle
              map_go for_each for_each_right reduce_go
              (fun m => bind_res (zip 0 m) (unzip 0)) (fun m => bind_res (unzip 0 m) (zip 0)).
+(* the same loops at float codes; GroupBy with Go's == on float64 (C12_ModelNaN.v) *)
+Definition c12_run_nan : list Z -> list Z :=
+  dispatch12 fkey_of fpred_of fop_of enc_groups_lex
+             chunk partition_go filter_go reject drop_while drop_right_while
+             (ggroup_by feq) (zip 0) (unzip 0) flatten merge drop reverse reverse_str shuffle
+             map_go for_each for_each_right reduce_go
+             (fun m => bind_res (zip 0 m) (unzip 0)) (fun m => bind_res (unzip 0 m) (zip 0)).
+(* fn > 100: the `nan` stream *)
+Definition on_stream (f_int f_nan : list Z -> list Z) (w : list Z) : list Z :=
+  match w with
+  | fn :: a => if 100 <? fn then f_nan ((fn - 100) :: a) else f_int w
+  | [] => f_int w
+  end.
+Definition c12_run : list Z -> list Z := on_stream c12_run_int c12_run_nan.
 
 (* the specification: the reference definitions the theorems of C12_Props.v
    relate the model to (cut-n-at-a-time, filter, rev, one group per key,
@@ -155,14 +198,19 @@ Definition c12_run : list Z -> list Z :=
    none of them is written as a loop over indices.  Shuffle has no reference
    result: the property only asks for a permutation (see [c12_holds]). *)
 Definition np (p : Z -> bool) : Z -> bool := fun x => negb (p x).
-Definition c12_spec : list Z -> list Z :=
-  dispatch12 chunk_spec_ref
+Section Spec.
+  Context (key_of : Z -> Z -> Z) (pred_of : Z -> Z -> Z -> bool) (op_of : Z -> Z -> Z -> Z)
+          (enc_g : list (Z * list Z) -> list Z)
+          (f_group_by : (Z -> Z) -> list Z -> res (list (Z * list Z))).
+  Definition spec12 : list Z -> list Z :=
+    dispatch12 key_of pred_of op_of enc_g
+             chunk_spec_ref
              (fun p l => (filter p l, filter (np p) l))
              (fun p l => filter p l)
              (fun p l => Fin (filter (np p) l))
              (fun p l => filter (np p) l)
              (fun p l => rev (filter (np p) l))
-             (fun k l => Ok (group_by_ref Z.eq_dec k l))
+             f_group_by
              (transpose_ref 0) (transpose_ref 0) flatten_ref
              (fun s ps => concat (s :: ps)) (fun l n => Ok (drop_ref l n))
              (fun l => Fin (rev l)) (fun l => Fin (rev l))
@@ -170,6 +218,14 @@ Definition c12_spec : list Z -> list Z :=
              (fun k l => (map k l, l)) (fun l => l) (fun l => rev l)
              (fun op l init => (fold_left (fun acc v => op v acc) l init, reduce_log op l init))
              round_trip_ref round_trip_ref.
+End Spec.
+Definition c12_spec_int : list Z -> list Z :=
+  spec12 key_of pred_of op_of (fun g => enc_groups (gsort g)) (fun k l => Ok (group_by_ref Z.eq_dec k l)).
+(* the same references at float codes (they never compare elements); GroupBy: [ggroup_ref feq]
+   (C12_nan_group_by_is_reference proves the model equal to it) *)
+Definition c12_spec_nan : list Z -> list Z :=
+  spec12 fkey_of fpred_of fop_of enc_groups_lex (fun k l => Ok (ggroup_ref feq k l)).
+Definition c12_spec : list Z -> list Z := on_stream c12_spec_int c12_spec_nan.
 
 Definition c12_agree (w obs : list Z) : bool := zlist_eqb obs (c12_run w).
 
@@ -178,16 +234,47 @@ Definition c12_agree (w obs : list Z) : bool := zlist_eqb obs (c12_run w).
    satisfies the property iff it is the one the REFERENCE definitions give
    ([c12_spec]; C12_model_is_reference proves the model equal to them), and for
    Shuffle iff it is a panic-free rearrangement of the input. *)
+Definition shuffle_holds (a' obs : list Z) : bool :=
+  match rd_zs a', obs with
+  | Some (l, _), 0 :: obs' =>
+      match rd_zs obs' with
+      | Some (r, []) => zlist_eqb (zsort r) (zsort l)
+      | _ => false
+      end
+  | _, _ => false
+  end.
+(* GroupBy at float64: WHICH zero the map keeps as the key of the group of the zero-keyed
+   elements (+0 and -0 are one key) is not something the property fixes — the model says "the
+   key of the group's last element" and [c12_agree] checks exactly that, but the property holds
+   on an observation whatever the sign of a zero KEY is.  The elements keep their signs. *)
+Fixpoint rd_groups (fuel : nat) (w : list Z) : option (list (Z * list Z)) :=
+  match w with
+  | [] => Some []
+  | k :: w' =>
+      match fuel with
+      | O => None
+      | S f =>
+          match rd_zs w' with
+          | Some (g, w'') =>
+              match rd_groups f w'' with Some r => Some ((k, g) :: r) | None => None end
+          | None => None
+          end
+      end
+  end.
+Definition norm_groups (o : list Z) : list Z :=
+  match o with
+  | 0 :: n :: w =>
+      match rd_groups (length w) w with
+      | Some gs => if n =? Z.of_nat (length gs)
+                   then 0 :: enc_groups_lex (map (fun kg => (fnorm (fst kg), snd kg)) gs) else o
+      | None => o
+      end
+  | _ => o
+  end.
 Definition c12_holds (w obs : list Z) : bool :=
   match w with
-  | 15 :: _seed :: a' =>
-      match rd_zs a', obs with
-      | Some (l, _), 0 :: obs' =>
-          match rd_zs obs' with
-          | Some (r, []) => zlist_eqb (zsort r) (zsort l)
-          | _ => false
-          end
-      | _, _ => false
-      end
+  | 15 :: _seed :: a' => shuffle_holds a' obs
+  | 115 :: _seed :: a' => shuffle_holds a' obs      (* float codes: the same multiset of codes *)
+  | 107 :: _ => zlist_eqb (norm_groups obs) (norm_groups (c12_spec w))
   | _ => zlist_eqb obs (c12_spec w)
   end.
